@@ -91,6 +91,9 @@ func c17Family(d string) string {
 
 func c17Destinations(rng interface{ Intn(int) int }, n int) []string {
 	out := []string{"/profile/", "/", "/idp/oauth2/authorize?client_id=a&scope=openid", "/showAuthToken", "/a/b?c=d#e",
+		// HTML character references for the characters the rule is about (a destination travels through HTML pages:
+		// code that un-escapes it anywhere after the check re-creates them)
+		"/&#92;evil.com/", "/&bsol;evil.com/", "/&#47;evil.com/", "/&sol;evil.com/", "/&#9;/evil.com/", "/&Tab;/evil.com/", "/&#x5c;evil.com", "/&#x2f;evil.com", "&sol;&sol;evil.com", "/&NewLine;/evil.com",
 		"//evil.com", "/\\evil.com", "/\\/evil.com", "\\/evil.com", "\\\\evil.com", "/\t/evil.com", "/\n/evil.com", "/\r/evil.com",
 		"/\r\n/evil.com", "/\x00/evil.com", "/\t\\evil.com", "/\x0b/evil.com", "/%2f/evil.com", "/%5cevil.com", "/%09/evil.com",
 		"https://evil.com", "http://evil.com/", "http:evil.com", "https:/evil.com", "javascript:alert(1)", "evil.com", "@evil.com", "/@evil.com",
@@ -254,7 +257,7 @@ func TestVerifC17(t *testing.T) {
 		judge("password", d, placement, code, hdr)
 	}
 	// second-factor flows get the critical families first
-	nSecond := 70
+	nSecond := 80
 	if verifThorough() {
 		nSecond = 1200
 	}
